@@ -133,7 +133,8 @@ crypto_stream_chacha20_ietf_xor_ic(unsigned char *c, const unsigned char *m,
                                    const unsigned char *n, uint32_t ic,
                                    const unsigned char *k)
 {
-    if ((unsigned long long) ic >
+    if (mlen > crypto_stream_chacha20_ietf_MESSAGEBYTES_MAX ||
+        (unsigned long long) ic >
         (64ULL * (1ULL << 32)) / 64ULL - (mlen + 63ULL) / 64ULL) {
         sodium_misuse();
     }
